@@ -470,7 +470,7 @@ func (g *G) Scalar(typ string, depth int, label string) Val {
 		v.S = rapid.SliceOfN(rapid.Byte(), 0, 20).Draw(t, label+".c")
 		if rapid.IntRange(0, 3).Draw(t, label+".clong") == 0 {
 			// payload lengths on both sides of the one-byte / two-byte length heads
-			n := rapid.SampledFrom([]int{23, 24, 25, 30, 255, 256, 300}).Draw(t, label+".clen")
+			n := rapid.SampledFrom([]int{23, 24, 25, 30, 255, 256, 300, 400, 1000, 5000}).Draw(t, label+".clen")
 			v.S = rapid.SliceOfN(rapid.Byte(), n, n).Draw(t, label+".cl")
 		}
 	case "bool":
@@ -803,11 +803,13 @@ func (g *G) Steps(label string, maxSteps int) []Step {
 		// "copy":     With() logger a; a Level/Hook/Sample/ctx copy b of it; UpdateContext on a
 		// "disabled": Level(Disabled) logger d; a = d.With()...; UpdateContext on a; a.Level(enabled):
 		//             the update of a logger that is switched off must still be there when a child switches it on
-		patKind = rapid.SampledFrom([]string{"copy", "copy", "disabled"}).Draw(t, label+".updkind")
+		// "disabledctx": the same with a round trip through a context that already carries a logger
+		//             (WithContext stores a Disabled logger there) in place of the update
+		patKind = rapid.SampledFrom([]string{"copy", "copy", "disabled", "disabledctx"}).Draw(t, label+".updkind")
 		patAt = rapid.IntRange(0, n-4).Draw(t, label+".updat")
 	}
 	patReset := false
-	forceLevel := 99
+	forceLevel, forceN := 99, -1
 	for i := 0; i < n; i++ {
 		parent := i - 1
 		var from *int
@@ -827,11 +829,19 @@ func (g *G) Steps(label string, maxSteps int) []Step {
 			f := patAt
 			from, parent = &f, f
 			patReset = rapid.Bool().Draw(t, label+".updreset")
-		case patKind == "disabled" && i == patAt:
+		case (patKind == "disabled" || patKind == "disabledctx") && i == patAt:
 			forced, forceLevel = "level", 7
-		case patKind == "disabled" && i == patAt+1:
+		case (patKind == "disabled" || patKind == "disabledctx") && i == patAt+1:
 			forced = "with"
 			f := patAt
+			from, parent = &f, f
+		case patKind == "disabledctx" && i == patAt+2:
+			forced, forceN = "viactx", 1
+			f := patAt + 1
+			from, parent = &f, f
+		case patKind == "disabledctx" && i == patAt+3:
+			forced, forceLevel = "level", rapid.SampledFrom([]int{-1, 0, 1}).Draw(t, label+".updon")
+			f := patAt + 2
 			from, parent = &f, f
 		case patKind == "disabled" && i == patAt+2:
 			forced = "update"
@@ -905,6 +915,9 @@ func (g *G) Steps(label string, maxSteps int) []Step {
 			}
 		case "viactx":
 			st.N = uint32(rapid.IntRange(0, 1).Draw(t, label+".ctxhas"))
+			if forced == "viactx" && forceN >= 0 {
+				st.N, forceN = uint32(forceN), -1
+			}
 		case "output":
 			if g.cfg.Tree && rapid.IntRange(0, 3).Draw(t, label+".mute") == 0 {
 				st.N = uint32(rapid.IntRange(1, 2).Draw(t, label+".mutekind")) // 1 io.Discard, 2 nil
